@@ -328,7 +328,6 @@ func (c *Ctx) runOwnership(rule string) int {
 	return total
 }
 
-
 // ruleListMembership (part of R01.4): the idle list's membership invariant.
 // Ownership by `Remove(n) == true` is only as good as Remove's test "is n in
 // the list", which reads n's links: every operation that takes a node out of
